@@ -96,6 +96,9 @@ static int manage_srcs(m_mod_t *mod, m_ctx_t *c, int flag, bool stop) {
                 }
                 ret = m_itr_rm(m_itr);
             } else {
+                if (flag == RM) {
+                    wait_task(t);
+                }
                 ret = poll_set_new_evt(&c->ppriv, t, flag);
 
                 /* For type task: create task thread now */
